@@ -155,7 +155,11 @@ def shard(shard_no, nshards, seed, tier, extra):
     n = 160 if tier == "quick" else 8000
     d = common.Driver("rel", shim=True)
     for i in range(n):
-        gt = layoutgen.random_ground_truth(rng)
+        if rng.random() < 0.1:
+            pool = layoutgen.aliasing_pool(rng)     # slot numbers that agree in their low or high bits
+            gt = layoutgen.random_ground_truth(rng, nvars=rng.randint(2, min(8, len(pool))), slot_pool=pool)
+        else:
+            gt = layoutgen.random_ground_truth(rng)
         code = layoutgen.build(gt, rng)
         rs = []
         s0 = rng.getrandbits(48)
